@@ -10,7 +10,7 @@
    annotation requests (axis out of range or repeated, fewer than one shard, conflicting stage) are rejected
    without effect." *)
 From Coq Require Import ZArith List Bool Lia.
-From IRV Require Import Base.Exn C19.Model C19.Proofs C19.Proofs2 C19.Proofs3.
+From IRV Require Import Base.Exn C19.Model C19.Proofs C19.Proofs2 C19.Proofs3 Gen.C19Gen C19.GenEquiv.
 Import ListNotations.
 Open Scope Z_scope.
 
@@ -178,3 +178,34 @@ Theorem C19_shape_edit_unspecified :
                 /\ check (set_rank h v r) = [(8, 0, 0)].
 Proof. exact shape_edit_unspecified. Qed.
 Print Assumptions C19_shape_edit_unspecified.
+
+
+(* ---- the model is the source (second deepening round) ----
+   Gen/C19Gen.v is regenerated on every run from /repo: every test / filter / merge inside Node.shard,
+   set_pipeline_stage, sharding_of, _drop_sharding_for_value and Model.remove_device_configuration (+ cascade) is
+   translated expression by expression (`is` -> identity of the modelled object, ==/!=/in on the frozen dataclass
+   -> field equality c_equal, on Value -> identity as in Python); the loop skeletons and the remaining modelled
+   methods are statement-pinned.  The ops of the hand model ARE the methods re-assembled from the translation: *)
+Theorem C19_model_is_translation : forall h o,
+  match o with
+  | OShard n v c axis shards devs stage => exec h o = on_node h n (fun nd => gen_shard_nd nd v c axis shards devs stage)
+  | OStage n c s => exec h o = on_node h n (fun nd => gen_stage_nd nd c s)
+  | ORemCfgObj c cascade => exec h o = gen_remove_cfg_obj h c cascade
+  | ORemCfgName name cascade => exec h o = gen_remove_cfg_name h name cascade
+  | _ => True
+  end.
+Proof. exact gen_exec_annotation_ops. Qed.
+Print Assumptions C19_model_is_translation.
+
+Theorem C19_drop_is_translation : forall nd v,
+  gen_drop_for nd v = drop_for nd v /\ gen_sharding_of nd v = sharding_of nd v.
+Proof. intros nd v. split; [apply gen_drop_for_eq | apply gen_sharding_of_eq]. Qed.
+Print Assumptions C19_drop_is_translation.
+
+(* Configurations are recognised by identity, not equality: removing by an object that is not registered is
+   rejected without effect — also when an EQUAL object (same name and num_devices) is registered
+   (Example GenEquiv.equal_is_not_identical; the request with the registered object itself cascades). *)
+Theorem C19_configurations_by_identity : forall h c cascade,
+  ~ In c (s_cfgs h) -> exec h (ORemCfgObj c cascade) = (h, Raise ValueError).
+Proof. exact remove_unregistered_rejected. Qed.
+Print Assumptions C19_configurations_by_identity.
